@@ -96,6 +96,8 @@ GEN_FORMS = {
     "yield_stmt": lambda k: ([I.expr(I.yld(I.site(k()))), I.assign(I.name("a"), I.site(k())), I.expr(I.yld(I.read("a")))], ["a"]),
     "yield_rhs": lambda k: ([I.assign(I.name("r"), I.yld(I.site(k()))), I.seen("r")], ["r"]),
     "yield_in_loop": lambda k: ([I.for_(I.name("i"), k(), [I.expr(I.call(k(), I.yld(I.read("i"))))])], []),
+    # the `return; yield` idiom: the function is a generator only because of a yield that is never reached
+    "dead_yield": lambda k: ([I.assign(I.name("a"), I.site(k())), I.ret(), I.expr(I.yld(I.site(k())))], ["a"]),
     "yield_none": lambda k: ([I.expr(I.yld()), I.ret(I.site(k()))], []),
 }
 
